@@ -57,6 +57,8 @@ def execute(ctx, case):
     rng = np.random.default_rng(case["_seed"])
     allv = np.concatenate([posf, negf])
     ths = gen.thresholds(rng, allv)
+    if case["_seed"] % 6 == 0:  # a long threshold vector in arbitrary order with repeats (per-sample thresholds, pooled grids)
+        ths = rng.choice(ths, int(rng.integers(1000, 2500)))
     span = max(1.0, float(np.ptp(allv)) if allv.size else 1.0, float(np.abs(allv).max()) if allv.size else 1.0)
     s = Scores(pos, neg, nb_easy_pos=ep, nb_easy_neg=en, score_class=sc, equal_class=ec)
     sig = (sc, ec, case["kind"], ep > 0, en > 0, "exact" if case["exact"] else "-")
@@ -101,7 +103,7 @@ def execute(ctx, case):
             continue
         t = np.asarray(getattr(s, "threshold_at_" + m)(rs))
         tn_ = np.asarray(getattr(ng, "threshold_at_" + m)(rs))
-        C(monitors.close_thr(tn_, -t, span), "thresholds do not negate under negation + flipped score_class", "sym-neg-thr", metric=m, targets=rs, t=t, t_negated_object=tn_)
+        C(monitors.close_thr(tn_, -t, max(float(np.ptp(allv)), 1e-300)), "thresholds do not negate under negation + flipped score_class", "sym-neg-thr", metric=m, targets=rs, t=t, t_negated_object=tn_)
         if not iso:
             continue
         ta = np.asarray(getattr(af, "threshold_at_" + m)(rs))
